@@ -144,6 +144,9 @@ def _prune(d, keep):
 
 def build_cli_tools():
     """the five command-line tools built (with sanitizers) from the working tree"""
+    if os.environ.get("VERIF_TOOLS_OVERRIDE"):          # development aid only (tools/coverage.sh)
+        d = os.environ["VERIF_TOOLS_OVERRIDE"]
+        return {n: os.path.join(d, n) for n in ("cdns-blocks", "cdns-items", "cdns-itemcount", "cdns-merge", "cdns-preamble")}
     flags = BASE_FLAGS + VARIANTS["asan"]
     with Lock("harness-asan"):
         hh = _headers_hash()
